@@ -260,7 +260,7 @@ func init() {
 	}
 	checks["C15"] = func(c *ctx) {
 		o := prog.DefaultOpts()
-		o.WrapPct, o.InstrPct, o.PredPct, o.FallbackPct, o.ShadowPct, o.BarePct = 100, 50, 30, 30, 50, 40
+		o.WrapPct, o.InstrPct, o.PredPct, o.FallbackPct, o.ShadowPct, o.BarePct = 70, 50, 30, 30, 50, 40
 		g := genPart(c, "C15", c.pick(60, 700), c.pick(60, 700), o, 2, "ok,fault", c.pick(3, 6), false,
 			"every argument expression of the directive is wrapped in a logging identity function (>= 3 sites): ctx, Params, Results, Concurrency, ContinueOnError, emitters, instrument names, task/predicate/element/End function expressions, FallbackWith values, collections; "+
 				"or (40% of the programs, 'bare') every argument is a plain local variable - named like a generated identifier where types allow - that the program overwrites with a recognisable replacement (poison token, twin function, marked context, dummy pointer, replacement emitter/name) when the first user function is entered: any replacement observed later means the argument was not evaluated before the tasks started")
